@@ -8,6 +8,7 @@ import (
 	"github.com/grafana/cog/internal/ast"
 	"github.com/grafana/cog/internal/jennies/common"
 	"github.com/grafana/cog/internal/languages"
+	"github.com/grafana/cog/internal/verifhook"
 )
 
 func (pipeline *Pipeline) Run(ctx context.Context) (*codejen.FS, error) {
@@ -78,12 +79,19 @@ func (pipeline *Pipeline) ContextForLanguage(language languages.Language, schema
 		return languages.Context{}, err
 	}
 
+	if verifhook.Enabled {
+		verifhook.Emit("context.schemas", language.Name(), schemas, jenniesInput.Schemas)
+	}
+
 	if !pipeline.Output.Builders {
 		return jenniesInput, nil
 	}
 
 	// from schemas, derive builders
 	jenniesInput.Builders = (&ast.BuilderGenerator{}).FromAST(jenniesInput.Schemas)
+	if verifhook.Enabled {
+		verifhook.Emit("builders.derived", language.Name(), jenniesInput.Schemas, jenniesInput.Builders)
+	}
 
 	// apply veneers to builders
 	veneersRewriter, err := pipeline.veneers()
@@ -96,10 +104,17 @@ func (pipeline *Pipeline) ContextForLanguage(language languages.Language, schema
 		return languages.Context{}, err
 	}
 
+	if verifhook.Enabled {
+		verifhook.Emit("builders.rewritten", language.Name(), jenniesInput.Schemas, jenniesInput.Builders)
+	}
+
 	// with the veneers applied, generate "nil-checks" for assignments
 	jenniesInput, err = languages.GenerateBuilderNilChecks(language, jenniesInput)
 	if err != nil {
 		return languages.Context{}, err
+	}
+	if verifhook.Enabled {
+		verifhook.Emit("context.ready", language.Name(), jenniesInput)
 	}
 
 	return jenniesInput, nil
